@@ -224,10 +224,11 @@ Lemma parse_tag_lines_error lines n l :
   parse_tag_lines lines n = RErr l -> n <= l < n + length lines.
 Proof.
   revert n. induction lines as [|x lines IH]; intros n H; cbn [parse_tag_lines] in H; [discriminate|].
-  cbn [length]. destruct (strip x) as [|c r] eqn:SX.
+  cbn [length].
+  destruct (match strip x with [] => true | _ :: _ => first_is cp_hash (strip x) end).
   - apply IH in H. lia.
-  - rewrite (match_at (c :: r)) in H. destruct (starts_at (c :: r)).
-    + match type of H with context [tag_words ?w n] => destruct (tag_words w n) as [ts|] end.
+  - destruct (first_is cp_at (strip x)).
+    + destruct (tag_words (split_ws (strip x)) n) as [ts|].
       * destruct (parse_tag_lines lines (S n)) as [rest|l'] eqn:R; cbn in H; [discriminate H|]. inversion H. subst. apply IH in R. lia.
       * inversion H. lia.
     + inversion H. lia.
@@ -315,3 +316,122 @@ Proof.
   intros m K. split; apply steps_reject_other_lines; try reflexivity; try (rewrite K; vm_compute; reflexivity);
     unfold sub_taggable; rewrite match_at; rewrite K; vm_compute; reflexivity.
 Qed.
+
+(* ======================= C04: faithfulness ======================= *)
+
+(* ---- blank lines and comment lines only advance the line counter ---- *)
+Lemma blank_lines_are_skipped m line :
+  strip line = [] -> m_st m <> StMultiline -> feed (ROk m) line = ROk (upd_line m (S (m_line m))).
+Proof.
+  intros B NM. unfold feed. cbn [rbind]. rewrite B. cbn [upd_line m_st]. destruct (m_st m); try reflexivity. congruence.
+Qed.
+
+Lemma comment_lines_are_skipped m line c r :
+  strip line = c :: r -> c = cp_hash -> m_st m <> StMultiline ->
+  (m_st m = StInitial -> m_tags m = [] -> m_variant m = VFeature -> lang_comment (strip line) = None) ->
+  feed (ROk m) line = ROk (upd_line m (S (m_line m))).
+Proof.
+  intros S C NM L. unfold feed. cbn [rbind]. rewrite S. subst c. unfold action. rewrite S. cbn [upd_line m_st m_tags m_variant].
+  unfold cp_hash. destruct (m_st m) eqn:ST; try reflexivity; try congruence.
+  destruct (m_tags m) eqn:T; [|reflexivity]. destruct (m_variant m) eqn:V; try reflexivity.
+  specialize (L eq_refl eq_refl eq_refl). rewrite S in L. unfold cp_hash in L. rewrite L. reflexivity.
+Qed.
+
+(* ---- outside doc-strings a line matters only through its stripped form (and whether it opens a doc-string) ---- *)
+Theorem indentation_is_irrelevant m line line' :
+  m_st m <> StMultiline -> strip line = strip line' -> doc_fact line = doc_fact line' -> action m line = action m line'.
+Proof.
+  intros NM S D. unfold action, a_steps, a_table. rewrite S, D.
+  destruct (m_st m); try congruence; reflexivity.
+Qed.
+
+(* ---- every element carries the number of the line being processed ---- *)
+Theorem elements_are_stamped_with_the_current_line m a n :
+  (exists f, m_feat (build_feature m a n) = Some f /\ f_line f = m_line m /\ f_kw f = a /\ f_name f = n /\ f_tags f = m_tags m) /\
+  (forall st m' s, parse_step m s = ROk (Some (st, m')) -> ps_line st = m_line m) /\
+  (forall s t, m_table m = None -> a_table_row m s = ROk t -> exists tb, m_table t = Some tb /\ pt_line tb = m_line m /\ pt_head tb = row_cells s) /\
+  (forall s ts, tag_words (split_ws s) (m_line m) = Some ts -> Forall (fun tg => snd tg = m_line m) ts).
+Proof.
+  split; [eexists; cbn; repeat split|]. split; [|split].
+  - intros st m' s H. unfold parse_step in H. destruct (step_fact (m_kw m) s) as [[[rt k] text]|]; [|discriminate].
+    repeat match type of H with context [match ?x with _ => _ end] => destruct x end; inversion H; reflexivity.
+  - intros s t T H. unfold a_table_row in H. rewrite T in H. inversion H. eexists. cbn. repeat split.
+  - intros s. generalize (split_ws s). intros ws. induction ws as [|w ws IH]; intros ts H; cbn [tag_words] in H.
+    + inversion H. constructor.
+    + destruct w as [|c r]; [discriminate|].
+      destruct (N.eqb_spec c 64); [subst c|].
+      * destruct (tag_words ws (m_line m)) as [ts'|]; [|discriminate]. inversion H. constructor; [reflexivity|]. now apply IH.
+      * destruct (N.eqb_spec c 35); [subst c; inversion H; constructor|].
+        exfalso. destruct c as [|p]; [discriminate|].
+        destruct p as [p|p|]; try discriminate; destruct p as [p|p|]; try discriminate; destruct p as [p|p|]; try discriminate;
+          destruct p as [p|p|]; try discriminate; destruct p as [p|p|]; try discriminate; destruct p as [p|p|]; try discriminate;
+          try (destruct p as [p|p|]; try discriminate); congruence.
+Qed.
+
+(* ---- And / But / * take the type of the preceding step ---- *)
+Theorem and_but_star_inherit_the_previous_step_type m s rt k text t :
+  step_fact (m_kw m) s = Some (rt, k, text) -> m_last m = Some t ->
+  (rt = RAnd \/ rt = RBut \/ starts_with_star k = true) ->
+  exists st, parse_step m s = ROk (Some (st, m)) /\ ps_type st = t /\ ps_kw st = rstrip k /\ ps_name st = text.
+Proof.
+  intros S L R. unfold parse_step. rewrite S, L. destruct (starts_with_star k) eqn:ST.
+  - eexists. split; [reflexivity|]. cbn. auto.
+  - destruct R as [->|[->|R]]; try discriminate; eexists; (split; [reflexivity|]); cbn; auto.
+Qed.
+
+Theorem given_when_then_set_the_step_type m s k text :
+  starts_with_star k = false \/ m_last m = None ->
+  (step_fact (m_kw m) s = Some (RGiven, k, text) -> exists st m', parse_step m s = ROk (Some (st, m')) /\ ps_type st = SGiven /\ m_last m' = Some SGiven) /\
+  (step_fact (m_kw m) s = Some (RWhen, k, text) -> exists st m', parse_step m s = ROk (Some (st, m')) /\ ps_type st = SWhen /\ m_last m' = Some SWhen) /\
+  (step_fact (m_kw m) s = Some (RThen, k, text) -> exists st m', parse_step m s = ROk (Some (st, m')) /\ ps_type st = SThen /\ m_last m' = Some SThen).
+Proof.
+  intros C. repeat split; intros S; unfold parse_step; rewrite S;
+    (assert (E : (if starts_with_star k then m_last m else None) = None) by (destruct C as [-> | ->]; [reflexivity|now destruct (starts_with_star k)]));
+    rewrite E; eexists; eexists; (split; [reflexivity|]); cbn; auto.
+Qed.
+
+(* ---- keyword lines: the alias written and the stripped rest ---- *)
+Theorem first_alias_spec aliases s a n :
+  first_alias aliases s = Some (a, n) ->
+  exists l1 l2, aliases = l1 ++ a :: l2 /\ prefixb (a ++ [58%N]) s = true /\ n = strip (skipn (S (length a)) s) /\
+                forall b, In b l1 -> prefixb (b ++ [58%N]) s = false.
+Proof.
+  induction aliases as [|x aliases IH]; [discriminate|]. cbn [first_alias]. destruct (prefixb (x ++ [58%N]) s) eqn:P.
+  - intros H. inversion H. subst. exists [], aliases. repeat split; auto. intros b [].
+  - intros H. destruct (IH H) as [l1 [l2 [E [Q [N F]]]]]. exists (x :: l1), l2. split; [now rewrite E|]. repeat split; auto.
+    intros b [->|Hin]; [exact P|now apply F].
+Qed.
+
+(* ---- the keyword tables: every keyword of every language is recognized as itself (decided by evaluation) ---- *)
+Definition xname : ustr := [120%N].
+Definition struct_kinds (kw : kwtable) : list (nat * list ustr) :=
+  [(0, k_feature kw); (1, k_rule kw); (2, k_background kw); (3, k_scenario kw); (4, k_outline kw); (5, k_examples kw)].
+
+(* the cascade of the parser for a keyword line: rule, scenario, scenario outline, examples (taggable), then feature / background *)
+Definition classify (kw : kwtable) (s : ustr) : option (nat * ustr * ustr) :=
+  match first_alias (k_rule kw) s with Some (a, n) => Some (1, a, n) | None =>
+  match first_alias (k_scenario kw) s with Some (a, n) => Some (3, a, n) | None =>
+  match first_alias (k_outline kw) s with Some (a, n) => Some (4, a, n) | None =>
+  match first_alias (k_examples kw) s with Some (a, n) => Some (5, a, n) | None =>
+  match first_alias (k_feature kw) s with Some (a, n) => Some (0, a, n) | None =>
+  match first_alias (k_background kw) s with Some (a, n) => Some (2, a, n) | None => None end end end end end end.
+
+Definition struct_keywords_ok (kw : kwtable) : bool :=
+  forallb (fun kd => forallb (fun a =>
+             let line := a ++ [58; 32]%N ++ xname in
+             match classify kw line with
+             | Some (k, a', n) => Nat.eqb k (fst kd) && ustr_eqb a' a && ustr_eqb n xname
+             | None => false
+             end && match step_fact kw line with None => true | Some _ => false end) (snd kd)) (struct_kinds kw).
+
+Definition rawt_eqb (a b : rawt) : bool :=
+  match a, b with RGiven, RGiven | RWhen, RWhen | RThen, RThen | RAnd, RAnd | RBut, RBut => true | _, _ => false end.
+
+Definition step_keywords_ok (kw : kwtable) : bool :=
+  forallb (fun tk => forallb (fun k =>
+             starts_with_star k ||
+             match step_fact kw (k ++ xname) with
+             | Some (t, k', n) => rawt_eqb t (fst tk) && ustr_eqb k' k && ustr_eqb n xname
+             | None => false
+             end) (snd tk))
+          [(RGiven, k_given kw); (RWhen, k_when kw); (RThen, k_then kw); (RAnd, k_and kw); (RBut, k_but kw)].
